@@ -46,7 +46,13 @@ def _gen(rng, i=None):
     if k < 0.5:
         # non-terminating loops whose values stay small
         kind = rng.random()
-        if kind < 0.5:
+        if kind < 0.25:
+            # a command holding both a label heart and ♡ jumps by label once, then selects ♡ (NaN from the emptied
+            # stack) forever: it returns to ITSELF without end
+            lab = rng.choice([2, 5])
+            body = [(0, 1, 1, None)] * rng.randint(1, 3) + [(1, 1, 3, lab), (1, rng.choice([1, 2]), 3, None),
+                                                            (5, 1, 3, rng.choice([('?', lab, 13), ('!', lab, 13), ('?', lab, ('?', 13, 13))]))]
+        elif kind < 0.5:
             body = [(0, 1, 1, 4), (1, 1, rng.choice([5, 1, 2]), None)] + [(0, 1, 1, None), (1, 1, 6, None)] * rng.randint(0, 2) + [(0, 1, 1, 4)]
         else:
             body = [(0, 1, 1, 2), (1, 1, 5, None), (0, 1, 1, 2), (1, 1, 5, None), (0, 1, 0, 13)]
